@@ -221,6 +221,14 @@ func search(t *testing.T, h *Harness) {
 		}
 		if res.Capped {
 			out.Capped++
+			if p := os.Getenv("VERIF_DUMP_CAPPED"); p != "" && out.Capped == 1 {
+				r2 := RunOnce(t, withLog(h.Cfg), NewReplay(res.Decisions), h.Body)
+				lg := r2.Log
+				if len(lg) > 400 {
+					lg = append(append([]string{}, lg[:150]...), lg[len(lg)-250:]...)
+				}
+				os.WriteFile(p, []byte(strings.Join(lg, "\n")), 0o644)
+			}
 			continue
 		}
 		for k, v := range res.Probes {
